@@ -571,8 +571,21 @@ class Prog:
             if h is None:
                 return self.assign(sc, ind)
             o = self.fresh('o')
-            self.emit(ind, '%s = %s(%s)' % (o, h, e))
+            if self.chance(0.3):
+                # alternate constructor: for H9 an inherited classmethod reached through the subclass
+                self.emit(ind, '%s = %s.mk(%s)' % (o, h, e))
+                self.features.add('holder-via-classmethod')
+            else:
+                self.emit(ind, '%s = %s(%s)' % (o, h, e))
             self.bind(sc, o, Var('O', x=x, prov=self.applied(self.holder_uses(h), pv)))
+            if self.chance(0.4) and not sc.has_params:
+                # the holder object itself is probed (soundness only: no exactness bookkeeping)
+                self.nprobe += 1
+                t = 't%d' % self.nprobe
+                self.emit(ind, '%s = %s' % (t, o))
+                self.emit(ind, t)
+                self.probe_info[len(self.lines)] = None
+                self.features.add('probe-holder-object')
         elif k == 'unpack':
             self.features.add('unpack')
             t, n, xs, pv = self.seq(sc)
